@@ -33,6 +33,7 @@ import (
 
 	"tunnox-core/internal/app/server"
 	"tunnox-core/internal/client/mapping"
+	"tunnox-core/internal/client/tunnel"
 	"tunnox-core/internal/cloud/models"
 	"tunnox-core/internal/cloud/repos"
 	"tunnox-core/internal/cloud/services"
@@ -41,6 +42,7 @@ import (
 	coreerrors "tunnox-core/internal/core/errors"
 	"tunnox-core/internal/core/idgen"
 	"tunnox-core/internal/core/storage/memory"
+	"tunnox-core/internal/packet"
 	"tunnox-core/internal/protocol/session"
 	"tunnox-core/internal/stream"
 	"tunnox-core/internal/utils/random"
@@ -509,6 +511,224 @@ func runRegRace(c caseIn) *caseOut {
 	return out
 }
 
+// gatedStream: the stream of a registered control connection; Close() parks until the scheduler lets it go.  The clean
+// Register closes the evicted connection's stream INSIDE its critical section (everybody else waits on the registry
+// mutex); a Register that drops the mutex around the Close lets others in between its eviction and its insert.
+type gatedStream struct {
+	id      int
+	arrived chan int
+	release chan struct{}
+	closed  atomic.Bool
+}
+
+func (g *gatedStream) GetReader() io.Reader { return nil }
+func (g *gatedStream) GetWriter() io.Writer { return nil }
+func (g *gatedStream) ReadPacket() (*packet.TransferPacket, int, error) {
+	return nil, 0, io.EOF
+}
+func (g *gatedStream) WritePacket(*packet.TransferPacket, bool, int64) (int, error) { return 0, nil }
+func (g *gatedStream) ReadExact(int) ([]byte, error)                              { return nil, io.EOF }
+func (g *gatedStream) WriteExact([]byte) error                                    { return nil }
+func (g *gatedStream) Close() {
+	if g.closed.Swap(true) {
+		return
+	}
+	g.arrived <- g.id
+	<-g.release
+}
+
+// runRegSched: a FULL control registry (max connections, each with a gated stream) and k <= max concurrent Registers of
+// new connections.  Sched lists caller indices: the first occurrence starts the caller's Register, later occurrences let
+// go the Close() the caller is parked in.  A caller that is neither parked nor finished after a short wait is waiting on
+// the registry mutex (clean code) and is simply left alone.  After every step the count is sampled (when the registry
+// answers at all — a parked critical section holds the write lock) and must be <= max; at the end count and key set are final.
+func runRegSched(c caseIn) *caseOut {
+	out := newOut()
+	ctx, cancel := context.WithCancel(context.Background())
+	defer cancel()
+	var creg *session.ClientRegistry
+	var sm *session.SessionManager
+	if c.Kind == "control-sm" {
+		sm = newSession(ctx, 0, c.Max)
+	} else {
+		creg = session.NewClientRegistry(&session.ClientRegistryConfig{MaxConnections: c.Max})
+	}
+	register := func(cc *session.ControlConnection) {
+		if creg != nil {
+			creg.Register(cc)
+		} else {
+			sm.RegisterControlConnection(cc)
+		}
+	}
+	count := func() int {
+		if creg != nil {
+			return creg.Count()
+		}
+		return sm.GetConnectionStats().ControlConnections
+	}
+	present := func(id int) bool {
+		if creg != nil {
+			return creg.GetByConnID(cid(id)) != nil
+		}
+		return sm.GetControlConnection(cid(id)) != nil
+	}
+	arrived := make(chan int, 64)
+	var streams []*gatedStream
+	mk := func(id, at int) *session.ControlConnection {
+		gs := &gatedStream{id: id, arrived: arrived, release: make(chan struct{}, 1)}
+		streams = append(streams, gs)
+		cc := session.NewControlConnection(cid(id), gs, nil, "tcp")
+		cc.CreatedAt = epoch.Add(time.Duration(at) * time.Second)
+		return cc
+	}
+	for k := 0; k < c.Max; k++ { // pre-fill: ids 100.., the oldest first
+		register(mk(100+k, k))
+	}
+	n := c.N
+	done := make([]chan struct{}, n)
+	started := make([]bool, n)
+	finished := make([]bool, n)
+	parkedIn := map[int]*gatedStream{} // stream id -> parked Close
+	byID := map[int]*gatedStream{}
+	for _, g := range streams {
+		byID[g.id] = g
+	}
+	sample := func(what string) {
+		res := make(chan int, 1)
+		go func() { res <- count() }()
+		select {
+		case k := <-res:
+			out.Counts = append(out.Counts, [2]int{k, 1})
+			if k > out.MaxSeen {
+				out.MaxSeen = k
+			}
+			if c.Max > 0 && k > c.Max {
+				out.fail("control-cap", fmt.Sprintf("limit %d (registry full, evicted streams park in Close), %d concurrent Register of new connections: %d registered after %s", c.Max, n, k, what))
+			}
+		case <-time.After(30 * time.Millisecond):
+			out.Counts = append(out.Counts, [2]int{0, 0}) // a critical section is parked: the registry does not answer
+			go func() { <-res }()
+		}
+	}
+	// absorb whatever becomes visible within a short while: new parked Close()s and finished callers
+	absorb := func(wait time.Duration) {
+		deadline := time.After(wait)
+		for {
+			progressed := false
+			select {
+			case id := <-arrived:
+				parkedIn[id] = byID[id]
+				progressed = true
+			default:
+			}
+			for i := 0; i < n; i++ {
+				if started[i] && !finished[i] {
+					select {
+					case <-done[i]:
+						finished[i] = true
+						progressed = true
+					default:
+					}
+				}
+			}
+			if progressed {
+				continue
+			}
+			select {
+			case <-deadline:
+				return
+			case <-time.After(200 * time.Microsecond):
+			}
+		}
+	}
+	releaseOne := func() bool { // let go the oldest parked Close
+		best := -1
+		for id := range parkedIn {
+			if best < 0 || id < best {
+				best = id
+			}
+		}
+		if best < 0 {
+			return false
+		}
+		parkedIn[best].release <- struct{}{}
+		delete(parkedIn, best)
+		return true
+	}
+	for _, i := range c.Sched {
+		if i < 0 || i >= n {
+			continue
+		}
+		if !started[i] {
+			started[i] = true
+			done[i] = make(chan struct{})
+			cc := mk(1+i, 1000+i)
+			byID[1+i] = streams[len(streams)-1]
+			go func(d chan struct{}) { register(cc); close(d) }(done[i])
+		} else if !releaseOne() {
+			continue
+		}
+		absorb(40 * time.Millisecond)
+		out.Sched = append(out.Sched, i)
+		sample(fmt.Sprintf("step %d", len(out.Sched)))
+	}
+	// completion: start everybody, then let every parked Close go until all callers have returned
+	for i := 0; i < n; i++ {
+		if !started[i] {
+			started[i] = true
+			done[i] = make(chan struct{})
+			cc := mk(1+i, 1000+i)
+			byID[1+i] = streams[len(streams)-1]
+			go func(d chan struct{}) { register(cc); close(d) }(done[i])
+		}
+	}
+	deadline := time.Now().Add(10 * time.Second)
+	for {
+		absorb(5 * time.Millisecond)
+		all := true
+		for i := 0; i < n; i++ {
+			all = all && finished[i]
+		}
+		if all {
+			break
+		}
+		releaseOne()
+		if time.Now().After(deadline) {
+			out.fail("harness", "concurrent Register calls did not finish within 10s")
+			break
+		}
+	}
+	final := count()
+	out.Final = final
+	if final > out.MaxSeen {
+		out.MaxSeen = final
+	}
+	if c.Max > 0 && final > c.Max {
+		out.fail("control-cap", fmt.Sprintf("limit %d (registry full, evicted streams park in Close), %d concurrent Register of new connections: %d registered in the end", c.Max, n, final))
+	}
+	keys := map[int]bool{}
+	for k := 0; k < c.Max; k++ {
+		if present(100 + k) {
+			keys[100+k] = true
+		}
+	}
+	for i := 0; i < n; i++ {
+		if present(1 + i) {
+			keys[1+i] = true
+		} else {
+			out.fail("control-refused-valid", fmt.Sprintf("new control connection %d is not registered after its Register returned", 1+i))
+		}
+	}
+	out.Keys = append(out.Keys, sortedInts(keys))
+	for _, g := range streams { // unpark anything still waiting (evictions of the final cleanup)
+		select {
+		case g.release <- struct{}{}:
+		default:
+		}
+	}
+	return out
+}
+
 // ------------------------------------------------------------------------------------------------ client mapping cap
 
 type spinBarrier struct {
@@ -713,6 +933,24 @@ func waitFor(cond func() bool) bool {
 	return true
 }
 
+// earlyCloseManager: the handler's real tunnel manager; when armed, the peer's close notification for a tunnel is
+// delivered immediately after that tunnel has been registered (before the handler starts it).
+type earlyCloseManager struct {
+	tunnel.TunnelManager
+	armed, fired bool
+}
+
+func (m *earlyCloseManager) RegisterTunnel(t *tunnel.Tunnel) error {
+	if err := m.TunnelManager.RegisterTunnel(t); err != nil {
+		return err
+	}
+	if m.armed {
+		m.armed, m.fired = false, true
+		m.TunnelManager.OnTunnelClosed(t.GetID(), "m1", "target_unreachable", 0, 0, 0)
+	}
+	return nil
+}
+
 // histories of whole connections: open = one arrival carried through to a started tunnel; close k = the local side of
 // the k-th arrival hangs up.  Live tunnels of the mapping must never exceed the limit.
 func runMapSeq(c caseIn) *caseOut {
@@ -722,9 +960,14 @@ func runMapSeq(c caseIn) *caseOut {
 	ad := &fakeAdapter{}
 	h, fc := newHandler(ctx, c, ad)
 	defer h.Close()
+	ecm := &earlyCloseManager{}
+	h.VerifWrapTunnelManager(func(real tunnel.TunnelManager) tunnel.TunnelManager {
+		ecm.TunnelManager = real
+		return ecm
+	})
 	tm := h.GetTunnelManager()
 	var conns []*localConn
-	state := []int{} // per arrival: 1 live, 2 refused, 3 closed
+	state := []int{} // per arrival: 1 live, 2 refused, 3 closed (also: closed by the peer before it was started)
 	peerOf := map[int]net.Conn{}
 	live := 0
 	for _, op := range c.Ops {
@@ -745,6 +988,30 @@ func runMapSeq(c caseIn) *caseOut {
 				peerOf[len(conns)-1] = fc.peers[len(fc.peers)-1]
 				fc.mu.Unlock()
 			}
+		} else if op[0] == 2 {
+			// the peer's "tunnel closed" notification for this connection's tunnel arrives right after RegisterTunnel,
+			// i.e. before tun.Start(): Tunnel.Close runs OnClosed, Start then fails, the failure path cleans up
+			lc := &localConn{closed: make(chan struct{})}
+			conns = append(conns, lc)
+			ecm.armed, ecm.fired = true, false
+			h.VerifHandleConnection(lc)
+			ecm.armed = false
+			select {
+			case <-lc.closed:
+			default:
+				out.fail("harness", "connection closed by its peer before Start is still open")
+				lc.Close()
+			}
+			if ecm.fired {
+				state = append(state, 3)
+				res = 4
+				fc.mu.Lock()
+				fc.peers[len(fc.peers)-1].Close()
+				fc.mu.Unlock()
+			} else {
+				state = append(state, 2) // refused at admission: the tunnel was never built
+				res = 2
+			}
 		} else {
 			k := op[1]
 			if k < len(conns) && state[k] == 1 {
@@ -764,6 +1031,9 @@ func runMapSeq(c caseIn) *caseOut {
 		out.Counts = append(out.Counts, [2]int{h.VerifActiveConnCount(), live})
 		if live > out.MaxSeen {
 			out.MaxSeen = live
+		}
+		if got := h.VerifActiveConnCount(); got < 0 {
+			out.fail("mapping-slot-double-release", fmt.Sprintf("activeConnCount=%d (below zero) with %d live tunnels after %v: a slot was released twice", got, live, op))
 		}
 		if got := h.VerifActiveConnCount(); got > live {
 			// no arrival is in flight here: slots may only be held by live tunnels
@@ -1185,6 +1455,8 @@ func runCase(raw json.RawMessage) interface{} {
 		return runReg(c)
 	case "regrace":
 		return runRegRace(c)
+	case "regsched":
+		return runRegSched(c)
 	case "maprace":
 		return runMapRace(c)
 	case "mapseq":
